@@ -28,13 +28,20 @@ var (
 // isElementWithoutContent determines if node is empty
 // or only filled with <br> and <hr>.
 func isElementWithoutContent(node *html.Node) bool {
-	brs := dom.GetElementsByTagName(node, "br")
-	hrs := dom.GetElementsByTagName(node, "hr")
+	// The element is without content if all of its children are <br> or <hr>.
+	// Only the children are counted: counting the <br> and <hr> of all descendants
+	// makes an element like <div><p><img><br></p></div> (1 child, 1 <br>) look empty.
 	childs := dom.Children(node)
+	nBreaks := 0
+	for _, child := range childs {
+		if tagName := dom.TagName(child); tagName == "br" || tagName == "hr" {
+			nBreaks++
+		}
+	}
 
 	return node.Type == html.ElementNode &&
 		strings.TrimSpace(dom.TextContent(node)) == "" &&
-		(len(childs) == 0 || len(childs) == len(brs)+len(hrs))
+		(len(childs) == 0 || len(childs) == nBreaks)
 }
 
 func isByline(node *html.Node, matchString string) bool {
